@@ -10,6 +10,7 @@ variable {α : Type}
 /-- decidable form of `InScope` -/
 def inScopeB (c : Conn α) : Label α → Bool
   | .write _ _ ctxNew => !ctxNew
+  | .wroute _ _ ctxNew => !ctxNew
   | .post _ _ ver _ => !ver.isNew
   | .get (.ok sid idx) _ _ => match c.store sid with
     | some log => decide (idx < log.length)
@@ -37,6 +38,9 @@ theorem inScope_of_b {c : Conn α} {l : Label α} (h : inScopeB c l = true) : In
   | wfail ex => trivial
   | sclose req retry => trivial
   | «end» => trivial
+  | evict _ _ => trivial
+  | wroute msg ctx ctxNew => simpa [inScopeB, InScope] using h
+  | wdeliver _ => trivial
 
 theorem inScopeRun_of_b : ∀ (ls : List (Label α)) (c : Conn α), inScopeRunB c ls = true → InScopeRun c ls
   | [], _, _ => trivial
